@@ -38,6 +38,11 @@ def run(ctx):
     c06.r23(a)
     from . import c01
     c01.r4(_MultiAlias(ctx, {"C01.R4": "C07.R7"}))
+    # whether the connection is kept after a request -- and with it whether anything is parsed behind a body whose framing
+    # failed -- is decided by the *current* must_close, the version and the header list, not by an earlier answer (C02.R6)
+    ctx.rule("C07.R9", "K4", "(= C02.R6) Message.should_close() is a function of must_close, the version and the Connection options at the time it is asked (no memo of an earlier answer)")
+    from . import c02
+    c02.r6(_MultiAlias(ctx, {"C02.R6": "C07.R9"}))
 
 
 def chunk_error_closes(ctx, rid):
